@@ -7,22 +7,69 @@ import (
 )
 
 // AsyncEventBroker maintains a list of listeners interested in a specific type
-// of event.  Events are sent in parallel to all listeners, and no result is
+// of event.  Events are delivered asynchronously with respect to the emitter, one
+// listener call at a time and in the order they were emitted; no result is
 // returned.
 type AsyncEventBroker[E any] struct {
 	sync.RWMutex
 	listenerNames []string  // Ordered listener names.
 	listenerFuncs []func(E) // Ordered listener functions.
+
+	queue     *asyncQueue // Shared between the brokers of a Host, see NewHost.
+	queueOnce sync.Once   // Guards lazy creation of a private queue.
 }
 
-// Emit sends the provided event to each registered listener in parallel.
+// asyncQueue runs queued listener calls one at a time, in the order they were queued.  A listener
+// is therefore never called until the one before it completes.
+type asyncQueue struct {
+	mu      sync.Mutex
+	pending []func()
+	running bool
+}
+
+// push queues a call, starting the worker goroutine if it is idle.
+func (q *asyncQueue) push(call func()) {
+	q.mu.Lock()
+	defer q.mu.Unlock()
+
+	q.pending = append(q.pending, call)
+	if !q.running {
+		q.running = true
+		go q.run()
+	}
+}
+
+// run executes queued calls until the queue is empty.
+func (q *asyncQueue) run() {
+	for {
+		q.mu.Lock()
+		if len(q.pending) == 0 {
+			q.running = false
+			q.mu.Unlock()
+			return
+		}
+		call := q.pending[0]
+		q.pending = q.pending[1:]
+		q.mu.Unlock()
+
+		call()
+	}
+}
+
+// Emit queues the provided event for each registered listener.
 func (eb *AsyncEventBroker[E]) Emit(event *E) {
 	eb.RLock()
 	defer eb.RUnlock()
 
+	eb.queueOnce.Do(func() {
+		if eb.queue == nil {
+			eb.queue = &asyncQueue{}
+		}
+	})
 	for _, l := range eb.listenerFuncs {
 		// Events are copied to minimize the risk of mutation.
-		go l(*event)
+		l, e := l, *event
+		eb.queue.push(func() { l(e) })
 	}
 }
 
